@@ -200,23 +200,22 @@ def tlc(module, cfg=None, workers=1, simulate=None, depth=None, env=None, timeou
 
 
 def parse_tla_tuple_ints(s):
-    """Parse the `bad` list out of a printed <<"TRACE-RESULT", n, <<a, b>>>> line."""
-    m = re.search(r'<<"TRACE-RESULT", (\d+), <<(.*?)>>>>', s)
+    """Parse the `bad` list out of a printed <<"TRACE-RESULT", n, <<a, b>>>> value (TLC wraps long tuples)."""
+    m = re.search(r'<<\s*"TRACE-RESULT",\s*(\d+),\s*<<(.*?)>>\s*>>', s, re.S)
     if not m:
         return None
     n = int(m.group(1))
     body = m.group(2).strip()
-    bad = [int(x) for x in body.split(",")] if body else []
+    bad = [int(x) for x in body.replace("\n", " ").split(",") if x.strip()] if body else []
     return n, bad
 
 
 def kvtrace_validate(trace_path, consts, module="KVTrace", timeout=1800):
     """Run the deterministic trace fold; returns (n_events, bad_line_numbers (1-based), TlcResult)."""
     r = tlc(module, workers=1, env={"TRACE": trace_path}, consts=consts, timeout=timeout, xmx="6g")
-    for line in r.printed:
-        t = parse_tla_tuple_ints(line)
-        if t:
-            return t[0], t[1], r
+    t = parse_tla_tuple_ints(r.out)
+    if t:
+        return t[0], t[1], r
     log(r.out[-3000:])
     raise ToolError("trace validation of %s produced no result line" % trace_path)
 
